@@ -49,7 +49,7 @@ Proof. intros parts H. rewrite write_chunking. exact (roundtrip _ H). Qed.
    padded base64 quantum occurs before the end of the character stream ([no_ipad]). *)
 Theorem C10_stream_generic :
   forall (T : Type) (tinit : T) (tfeed : T -> N -> T * list tok) (tfin : T -> list tok)
-         (chunks : list bytes) (sz : nat -> nat) (fuel : nat),
+         (chunks : list bytes) (sz : N -> nat) (fuel : nat),
   (forall j, (1 <= sz j)%nat) ->
   let F := events_of T tfeed tfin false tinit (List.concat chunks) in
   no_ipad (tl (chars F)) = true -> (List.length (chars F) < fuel)%nat ->
@@ -82,7 +82,7 @@ Proof. exact stream_decode_armor_run. Qed.
 Example C10_stream_reads_example :
   let doc := bs "<pre>0QUJD QUJD</pre><pre>" in
   no_ipad (body_of doc) = true /\ armor_decode doc = DErr EUnterminated /\
-  let r := armor_stream_decode (map (fun c => [c]) doc) (fun i => S (i mod 3)) 40 in
+  let r := armor_stream_decode (map (fun c => [c]) doc) (fun i => S (N.to_nat (i mod 3))) 40 in
   s_data r = bs "ABCABC" /\ s_end r = Some (RErr EUnterminated).
 Proof. vm_compute. auto. Qed.
 
@@ -108,7 +108,7 @@ Proof. exact roundtrip_streaming. Qed.
 Example C10_roundtrip_streaming_example :
   let parts := [bs "he"; []; bs "llo"] in
   bytes_ok (List.concat parts) = true /\
-  s_data (armor_stream_decode (cut_doc [7%nat; 1%nat] (armor_stream parts)) (fun i => S (i mod 2)) 20) = bs "hello".
+  s_data (armor_stream_decode (cut_doc [7%nat; 1%nat] (armor_stream parts)) (fun i => S (N.to_nat (i mod 2))) 20) = bs "hello".
 Proof. vm_compute. auto. Qed.
 
 (* ================================================================== no hang, no leak, bounded buffering *)
